@@ -4,75 +4,54 @@ package scratch
 
 import (
 	"fmt"
+	"strings"
+	"sync/atomic"
 	"testing"
 	"time"
 
 	sio "github.com/karagenc/socket.io-go"
-	"verif/harness/gates"
 	"verif/harness/proxy"
 	"verif/harness/rig"
 )
 
-func mk(t *testing.T, transports []string) (*rig.Server, *proxy.Proxy, *sio.Manager, sio.ClientSocket) {
+func TestRetry(t *testing.T) {
+	var got int64
+	var slow int32 = 1
 	srv, err := rig.NewServer(nil, func(io *sio.Server) {
 		io.Of("/").Use(func(s sio.ServerSocket, h *sio.Handshake) any {
-			s.OnEvent("x", func(n int) { fmt.Println("server got x", n) })
+			s.OnEvent("x", func(n int, ack func(string)) {
+				fmt.Println("server got x", n)
+				atomic.AddInt64(&got, 1)
+				if atomic.LoadInt32(&slow) == 1 {
+					time.Sleep(150 * time.Millisecond) // the first try's ack is lost with the connection
+				}
+				ack("ok")
+			})
 			return nil
 		})
 	})
 	if err != nil {
 		t.Fatal(err)
 	}
-	px, _ := proxy.New(srv.TS.Listener.Addr().String())
-	d, mx := 20*time.Millisecond, 80*time.Millisecond
+	defer srv.Close()
+	px, _ := proxy.New(strings.TrimPrefix(srv.URL(), "http://"))
+	defer px.Close()
+	d, mx := 10*time.Millisecond, 20*time.Millisecond
 	var j float32 = 0
-	m := rig.NewManager(px.URL(), transports, &sio.ManagerConfig{ReconnectionDelay: &d, ReconnectionDelayMax: &mx, RandomizationFactor: &j})
-	s := m.Socket("/", nil)
+	m := rig.NewManager(px.URL(), []string{"websocket"}, &sio.ManagerConfig{ReconnectionDelay: &d, ReconnectionDelayMax: &mx, RandomizationFactor: &j})
+	s := m.Socket("/", &sio.ClientSocketConfig{Retries: 1, AckTimeout: 300 * time.Millisecond})
 	t0 := time.Now()
-	s.OnConnect(func() { fmt.Println(time.Since(t0).Milliseconds(), "client connect") })
-	s.OnDisconnect(func(r sio.Reason) { fmt.Println(time.Since(t0).Milliseconds(), "client disconnect", r) })
+	s.OnConnect(func() { fmt.Println(time.Since(t0).Milliseconds(), "connect") })
+	s.OnDisconnect(func(r sio.Reason) { fmt.Println(time.Since(t0).Milliseconds(), "disconnect", r) })
 	m.OnError(func(err error) { fmt.Println(time.Since(t0).Milliseconds(), "mgr error", err) })
-	m.OnClose(func(r sio.Reason, err error) { fmt.Println(time.Since(t0).Milliseconds(), "mgr close", r) })
-	m.OnReconnectAttempt(func(n uint32) { fmt.Println(time.Since(t0).Milliseconds(), "attempt", n) })
-	m.OnReconnect(func(n uint32) { fmt.Println(time.Since(t0).Milliseconds(), "reconnected", n) })
-	return srv, px, m, s
-}
-
-func TestEarlyClose(t *testing.T) {
-	srv, px, m, s := mk(t, []string{"websocket"})
-	defer srv.Close()
-	defer px.Close()
-	ctl := gates.New()
-	ctl.HoldIf(func(pt string, k any) bool { return pt == "mgr.connect.dialed" })
-	ctl.Install()
-	defer gates.Uninstall()
 	s.Connect()
-	w := ctl.WaitFor(func(w *gates.Waiter) bool { return true }, 2*time.Second)
-	fmt.Println("held:", w != nil)
-	px.CutAll() // the connection dies between Dial returning and the state write
-	time.Sleep(300 * time.Millisecond)
-	st, at, sk := sio.VerifManagerState(m)
-	fmt.Println("before release: state", st, at, sk)
-	ctl.HoldIf(func(pt string, k any) bool { return false })
-	ctl.OpenAll()
+	rig.WaitUntil(2*time.Second, func() bool { return s.Connected() })
+	s.Emit("x", 1, func(err error, r string) { fmt.Println(time.Since(t0).Milliseconds(), "user ack 1", err, r) })
+	time.Sleep(50 * time.Millisecond)
+	px.CutAll() // the ack of try 1 is lost; the client reconnects and re-sends (try 2)
+	atomic.StoreInt32(&slow, 0)
 	time.Sleep(1500 * time.Millisecond)
-	st, at, sk = sio.VerifManagerState(m)
-	ss, nb := sio.VerifClientSocketState(s)
-	fmt.Println("after: mgr state", st, at, sk, "socket", ss, nb, "connected", s.Connected())
-}
-
-func TestHole(t *testing.T) {
-	srv, px, m, s := mk(t, []string{"websocket"})
-	defer srv.Close()
-	defer px.Close()
-	s.Connect()
-	time.Sleep(200 * time.Millisecond)
-	px.Blackhole(1)
-	px.CutAll() // existing connection dies; new dials are swallowed
-	time.Sleep(500 * time.Millisecond)
-	px.Blackhole(0)
-	fmt.Println("hole lifted")
-	time.Sleep(3 * time.Second)
-	st, at, sk := sio.VerifManagerState(m)
-	fmt.Println("after: mgr state", st, at, sk, "connected", s.Connected())
+	s.Emit("x", 2, func(err error, r string) { fmt.Println(time.Since(t0).Milliseconds(), "user ack 2", err, r) })
+	time.Sleep(800 * time.Millisecond)
+	fmt.Println("server got", atomic.LoadInt64(&got))
 }
